@@ -166,16 +166,16 @@ PROPS = {
         "transforms": [BUFFER_TRANSFORM] + MODEL_TRANSFORMS,
         "timeout": {"quick": 400, "thorough": 2400},
         "explanation": (
-            "Bounded symbolic model checking (Kani/CBMC) of the real ActorModel::next_state / actions code for systems of 1 (thorough 2) "
-            "actors, over ALL actor states, crash-flag vectors, budgets, sources and messages: "
+            "Bounded symbolic model checking (Kani/CBMC) of the real ActorModel::next_state / actions code for a ONE-actor system "
+            "(two actors: CBMC runs out of memory, measured), over ALL actor states, crash-flag vectors, budgets, sources and messages: "
             "next_state(Crash(i)) sets exactly flag i, leaves all else unchanged, leaves i without timers/choices and yields a state that "
             "is != its predecessor with a different hasher stream; next_state(Deliver{dst:i}) is None for every crashed i and runs the "
             "handler for every i that is up without touching other actors or flags; actions() offers Crash(i) exactly for the actors "
             "that are up, in order, and only while #down < max_crashes (budget arithmetic); a crash of an actor HOLDING a timer / a pending "
             "random choice discards it; on an ordered network a delivery to a crashed actor yields no successor either."
         ),
-        "bounds": {"actors": "1 (thorough 2)", "budget": "0..=N+1", "values": "u8 states/messages/timers/randoms, all usize source ids", "pending": "<=1 timer, <=1 choice (empty-string key)", "unwind": "3-4"},
-        "outside": ["systems of 3+ actors, several pending timers/choices, choice keys that are non-empty strings (symbolic-size allocation on clone)", "that a checker explores each crashed combination (checker loops, see C01)"],
+        "bounds": {"actors": "1", "budget": "0..=2", "values": "u8 states/messages/timers/randoms, all usize source ids", "pending": "<=1 timer, <=1 choice (empty-string key)", "unwind": "3-4"},
+        "outside": ["systems of 2+ actors (so: 'all other actors behave as before' is only checked as 'nothing else in the state changes'), several pending timers/choices, choice keys that are non-empty strings (symbolic-size allocation on clone)", "that a checker explores each crashed combination (checker loops, see C01)"],
         "assumptions": COMMON_ASSUME + HASHSET_ASSUME + MODELS_ASSUME,
     },
     "C05": {
